@@ -36,6 +36,8 @@ def bodies_of(f, adt):
 
 def run(ctx):
     f = ctx.facts()
+    ctx.rule("R-SIB", "sibling operations agree")
+    K.check_scheme_tests_ignore_case(ctx, f)
     ctx.rule("R-WHO", "construction / mutation sites of a type are exactly the confirmed ones")
     ctx.rule("R-CLS", "byte class extracted by abstract interpretation equals the RFC table")
     ctx.rule("R-CHK", "every success path passes a checked call to the sink")
